@@ -210,7 +210,7 @@ class RefConfig:
         self.thread_inherits = thread_inherits
 
     def ctxnew(self, parent: str | None, new: str, mode: str) -> None:
-        if parent is None or (mode == 'thread' and not self.thread_inherits) or mode == 'taskfresh':
+        if parent is None or (mode == 'thread' and not self.thread_inherits) or mode in ('taskfresh', 'executor'):
             base = dict(DEFAULT)
         else:
             base = dict(self.stacks[parent][-1])
